@@ -11,7 +11,7 @@
    all data, paths and ids: the stitching layer neither loses, misplaces nor duplicates. *)
 From Coq Require Import String List Bool ZArith.
 From GW Require Import Base.Res Base.GoStr Base.Json Gql.Syntax Gql.Spec Gw.Points Gw.FedCheck
-     Gw.Locate Gw.Plan Proofs.CodecProofs Proofs.PointsProofs Proofs.FindProofs Proofs.PlanProofs Proofs.PlanCount Proofs.StitchSound.
+     Gw.Locate Gw.Plan Proofs.CodecProofs Proofs.PointsProofs Proofs.FindProofs Proofs.PlanProofs Proofs.PlanCount Proofs.StitchSound Proofs.JoinSound Proofs.GroupSound.
 Import ListNotations.
 Open Scope string_scope.
 Open Scope list_scope.
@@ -110,3 +110,59 @@ Proof.
   - eexists. split; [vm_compute; reflexivity|]. split; vm_compute; reflexivity.
   - eapply dv_index; [vm_compute; reflexivity|vm_compute; reflexivity|discriminate].
 Qed.
+
+(* One join, end to end, against the reference semantics.  The accumulated response holds at a
+   realised point p the answer to the parent step's selection -- l1 and the id the planner added --
+   for an object o of the data graph whose id names it alone.  The executor reads the id at the
+   point, asks node(id) for l2, takes the value under "node", stitches it in at p and the scrubber
+   removes the id again.  Then p holds exactly the reference answer to l1 and l2 together for o:
+   for every data graph with atomic scalars, every object, every depth of p and every l1, l2 in
+   collected form that agree on common keys and do not themselves ask for id. *)
+Theorem C01_one_join_is_sound : forall w frags vars,
+  (forall o rt c, atomic_f (resolve w vars o rt c)) ->
+  forall l1, good (l1 ++ [id_sel]) ->
+  forall fuel o l2 p acc acc' acc'' m id ans node,
+  find_obj (b_id o) (w_objs w) = Some o ->
+  good l2 -> compat (l1 ++ [id_sel]) l2 -> p <> [] -> ~ In "id" (map key_of l2) ->
+  extract_value p acc = Ok (exec (S (S fuel)) w frags vars (Some o) (b_type o) (l1 ++ [id_sel])) ->
+  extract_value p acc = Ok (JObj m) -> jget "id" m = Some (JStr id) ->
+  exec (S (S (S fuel))) w frags vars None "Query" [node_sel id l2] = JObj ans ->
+  jget "node" ans = Some node ->
+  insert_object acc p node = Ok acc' ->
+  scrub_at "id" acc' p = Ok acc'' ->
+  extract_value p acc'' = Ok (exec (S (S fuel)) w frags vars (Some o) (b_type o) (l1 ++ l2)).
+Proof. intros w frags vars Hw l1 Hg. exact (join_and_scrub w frags vars Hw l1 Hg). Qed.
+Print Assumptions C01_one_join_is_sound.
+
+(* ... and before the scrubber runs, the point holds the answer to l1, id and l2 *)
+Theorem C01_join_before_scrubbing : forall w frags vars,
+  (forall o rt c, atomic_f (resolve w vars o rt c)) ->
+  forall l1, good (l1 ++ [id_sel]) ->
+  forall fuel o l2 p acc acc' m id ans node,
+  find_obj (b_id o) (w_objs w) = Some o ->
+  good l2 -> compat (l1 ++ [id_sel]) l2 -> p <> [] ->
+  extract_value p acc = Ok (exec (S (S fuel)) w frags vars (Some o) (b_type o) (l1 ++ [id_sel])) ->
+  extract_value p acc = Ok (JObj m) -> jget "id" m = Some (JStr id) ->
+  exec (S (S (S fuel))) w frags vars None "Query" [node_sel id l2] = JObj ans ->
+  jget "node" ans = Some node ->
+  insert_object acc p node = Ok acc' ->
+  extract_value p acc' = Ok (exec (S (S fuel)) w frags vars (Some o) (b_type o) ((l1 ++ [id_sel]) ++ l2)).
+Proof. intros w frags vars Hw l1 Hg. exact (join_sound w frags vars Hw l1 Hg). Qed.
+Print Assumptions C01_join_before_scrubbing.
+
+(* One level of planning is transparent.  For every routing table and priority list, every data
+   graph with atomic scalars, every object and every selection in collected form: the groups
+   groupSelectionSet makes hold exactly the selection's fields; merging the answers to the groups
+   with executorMergeObject gives the answer to all of them together; and that is the reference
+   answer to the client's selection with its keys in another order. *)
+Theorem C01_grouping_is_transparent : forall w frags vars,
+  (forall o rt c, atomic_f (resolve w vars o rt c)) ->
+  forall prios urls ptype ploc fuel o rt sels gs,
+  good sels -> group prios urls ptype ploc sels [] = Ok gs ->
+  Permutation.Permutation (all_sels gs) sels /\
+  merge_all (JObj []) (map (fun g => exec (S (S fuel)) w frags vars o rt (snd g)) gs) =
+    exec (S (S fuel)) w frags vars o rt (all_sels gs) /\
+  exists m m', exec (S (S fuel)) w frags vars o rt (all_sels gs) = JObj m /\
+               exec (S (S fuel)) w frags vars o rt sels = JObj m' /\ Permutation.Permutation m m'.
+Proof. intros w frags vars Hw. exact (grouping_is_transparent w frags vars Hw). Qed.
+Print Assumptions C01_grouping_is_transparent.
